@@ -39,6 +39,10 @@ TTransform ==
        /\ Chk("new_variable_named_after_original", Ev.new_name = TName("x"))
        /\ Chk("original_value_unchanged_by_transformation", CloseSeq(Ev.orig_value, Ev.leaves.x))
        /\ Chk("new_value_is_inverse_image", CloseSeq(Ev.new_value, Ev.leaves.t))
+       \* the model's totals see the transformed variable (it is the only distributed one; log-prior iff parameter)
+       /\ Chk("model_log_prob_is_the_new_variables_log_density", Close(Ev.model_log_prob, Ev.new_log_prob))
+       /\ Chk("model_log_prior_counts_the_new_variable_iff_parameter",
+              Close(Ev.model_log_prior, IF Hdr.parameter THEN Ev.new_log_prob ELSE "0.0"))
        /\ Chk("model_with_the_transformed_variable_can_be_deep_copied", Ev.copy_ok)
        /\ Chk("per_obs_setting_moves_with_the_distribution",
               Ev.new_per_obs = Hdr.per_obs /\ (~Hdr.per_obs => Ev.new_lp_scalar))
